@@ -26,6 +26,10 @@ Lemma logged_same (w1 w2 w3 : world) e :
   logged w1 w2 e -> log w3 = log w2 -> logged w1 w3 e.
 Proof. unfold logged. intros H1 H2. congruence. Qed.
 
+Lemma logged_from (w1 w2 w3 : world) e :
+  log w2 = log w1 -> logged w2 w3 e -> logged w1 w3 e.
+Proof. unfold logged. intros H1 H2. congruence. Qed.
+
 (* unchecked re-borrow of a live slot *)
 Lemma occ_ref_lawful i (w : world) :
   WF (self w) -> i < len (self w) ->
@@ -46,7 +50,7 @@ Lemma entry_of_lawful k (w : world) :
                   end)
      (fun _ => False) w.
 Proof.
-  intros Hw. unfold entry_of. apply wp_bind.
+  intros Hw. unfold entry_of. apply wp_bind. apply wp_on_unwind_nopanic.
   eapply wp_mono; [apply (scan_lawful ck (test_k E k) (ck k)); [apply (cls_test_k E ck cq HL) | exact Hw] | | intros w' []]; cbn beta.
   intros r w1 [[Hs1 Hl1] ->].
   destruct (find_idx ck (ck k) (elems (self w))) as [i|].
@@ -123,7 +127,8 @@ Lemma vac_insert_lawful k v (w : world) :
      (fun i w' => WF (self w') /\ cap (self w') = cap (self w) /\ log w' = log w /\
                   elems (self w') = elems (self w) ++ [(k, v)] /\ i = length (elems (self w)) /\
                   len (self w) < cap (self w))
-     (fun w' => stable w w' /\ len (self w) = cap (self w)) w.
+     (fun w' => self w' = self w /\ logged w w' (ev_drops (idK E k ++ idV E v)) /\
+                len (self w) = cap (self w)) w.
 Proof.
   intros Hw Hf. unfold vac_insert. apply wp_bind.
   eapply wp_mono; [apply (insert_ii_lawful E debug ck cq HL k v false w Hw) | |]; cbn beta.
@@ -137,7 +142,7 @@ Proof.
     apply wp_bind. eapply wp_p_ref; [exact Hp|]. apply wp_ret.
     split; [exact Hw1|]. split; [exact Hc1|]. split; [exact Hl1|]. split; [exact He|].
     split; [reflexivity | exact (Hlt Hf)].
-  - intros w' (Hst & _ & Hc). auto.
+  - intros w' (Hs & Hlg & _ & Hc). auto.
 Qed.
 
 (* ---- 5. Entry::or_insert ---- *)
@@ -151,7 +156,8 @@ Lemma or_insert_lawful k v (w : world) :
                   | None => i = length (elems (self w)) /\
                             elems (self w') = elems (self w) ++ [(k, v)] /\ log w' = log w
                   end)
-     (fun w' => self w' = self w /\ find_idx ck (ck k) (elems (self w)) = None /\
+     (fun w' => self w' = self w /\ logged w w' (ev_drops (idK E k ++ idV E v)) /\
+                find_idx ck (ck k) (elems (self w)) = None /\
                 len (self w) = cap (self w)) w.
 Proof.
   intros Hw. apply wp_bind.
@@ -172,17 +178,19 @@ Proof.
     eapply wp_mono; [apply vac_insert_lawful; rewrite Hs1; assumption | |]; cbn beta; rewrite Hs1.
     + intros i w2 (Hw2 & Hc2 & Hl2 & He2 & Hi2 & _).
       split; [exact Hw2|]. split; [exact Hc2|]. split; [exact Hi2|]. split; [exact He2 | congruence].
-    + intros w2 [[Hs2 _] Hc]. split; [congruence | auto].
+    + intros w2 (Hs2 & Hlg2 & Hc). split; [congruence|].
+      split; [eapply logged_from; eassumption | auto].
 Qed.
 
 (* ---- 6. Entry::or_insert_with / or_insert_with_key ---- *)
 Lemma call_mk_lawful (f : T -> option V * T) (w : world) :
   (forall s, exists v s', f s = (Some v, s')) ->
-  wp (call_mk f) (fun _ w' => self w' = self w /\ logged w w' [EvCall 2]) (fun _ => False) w.
+  wp (call_mk f) (fun v w' => self w' = self w /\ logged w w' [EvCall 2] /\
+                               exists s s', f s = (Some v, s')) (fun _ => False) w.
 Proof.
   intros Hf. unfold call_mk. apply wp_bind. apply wp_emit. apply wp_cbo_eq. simp_w.
   destruct (Hf (cb w)) as (v & s' & Hfs). rewrite Hfs. cbn [fst snd]. simp_w.
-  split; reflexivity.
+  split; [reflexivity|]. split; [reflexivity|]. exists (cb w), s'. exact Hfs.
 Qed.
 
 Lemma or_insert_with_lawful k (f : T -> option V * T) (w : world) :
@@ -196,7 +204,10 @@ Lemma or_insert_with_lawful k (f : T -> option V * T) (w : world) :
                             (exists v, elems (self w') = elems (self w) ++ [(k, v)]) /\
                             logged w w' [EvCall 2]
                   end)
-     (fun w' => self w' = self w /\ find_idx ck (ck k) (elems (self w)) = None /\
+     (fun w' => self w' = self w /\
+                (exists v s s', f s = (Some v, s') /\
+                   logged w w' ([EvCall 2] ++ ev_drops (idK E k ++ idV E v))) /\
+                find_idx ck (ck k) (elems (self w)) = None /\
                 len (self w) = cap (self w)) w.
 Proof.
   intros Hw Hfn. apply wp_bind.
@@ -209,13 +220,15 @@ Proof.
     intros i w2 [-> ->]. rewrite Hs1. auto.
   - destruct He as [-> Hl1]. cbn [or_insert_with].
     apply wp_bind. eapply wp_mono; [apply call_mk_lawful; exact Hfn | | intros w' []]; cbn beta.
-    intros v w2 [Hs2 Hl2].
+    intros v w2 (Hs2 & Hl2 & Hfv).
     assert (Hs : self w2 = self w) by congruence.
     eapply wp_mono; [apply vac_insert_lawful; rewrite Hs; assumption | |]; cbn beta; rewrite Hs.
     + intros i w3 (Hw3 & Hc3 & Hl3 & He3 & Hi3 & _).
       split; [exact Hw3|]. split; [exact Hc3|]. split; [exact Hi3|].
       split; [exists v; exact He3|]. unfold logged in *. congruence.
-    + intros w3 [[Hs3 _] Hc]. split; [congruence | auto].
+    + intros w3 (Hs3 & Hlg3 & Hc). split; [congruence|]. split; [|auto].
+      destruct Hfv as (s0 & s0' & Hfv). exists v, s0, s0'. split; [exact Hfv|].
+      eapply logged_trans; [eapply logged_from; [exact Hl1 | exact Hl2] | exact Hlg3].
 Qed.
 
 Lemma or_insert_with_key_lawful k (f : K -> T -> option V * T) (w : world) :
@@ -229,7 +242,10 @@ Lemma or_insert_with_key_lawful k (f : K -> T -> option V * T) (w : world) :
                             (exists v, elems (self w') = elems (self w) ++ [(k, v)]) /\
                             logged w w' [EvCall 2]
                   end)
-     (fun w' => self w' = self w /\ find_idx ck (ck k) (elems (self w)) = None /\
+     (fun w' => self w' = self w /\
+                (exists v s s', f k s = (Some v, s') /\
+                   logged w w' ([EvCall 2] ++ ev_drops (idK E k ++ idV E v))) /\
+                find_idx ck (ck k) (elems (self w)) = None /\
                 len (self w) = cap (self w)) w.
 Proof.
   intros Hw Hfn. apply wp_bind.
@@ -242,13 +258,15 @@ Proof.
     intros i w2 [-> ->]. rewrite Hs1. auto.
   - destruct He as [-> Hl1]. cbn [or_insert_with_key].
     apply wp_bind. eapply wp_mono; [apply call_mk_lawful; exact Hfn | | intros w' []]; cbn beta.
-    intros v w2 [Hs2 Hl2].
+    intros v w2 (Hs2 & Hl2 & Hfv).
     assert (Hs : self w2 = self w) by congruence.
     eapply wp_mono; [apply vac_insert_lawful; rewrite Hs; assumption | |]; cbn beta; rewrite Hs.
     + intros i w3 (Hw3 & Hc3 & Hl3 & He3 & Hi3 & _).
       split; [exact Hw3|]. split; [exact Hc3|]. split; [exact Hi3|].
       split; [exists v; exact He3|]. unfold logged in *. congruence.
-    + intros w3 [[Hs3 _] Hc]. split; [congruence | auto].
+    + intros w3 (Hs3 & Hlg3 & Hc). split; [congruence|]. split; [|auto].
+      destruct Hfv as (s0 & s0' & Hfv). exists v, s0, s0'. split; [exact Hfv|].
+      eapply logged_trans; [eapply logged_from; [exact Hl1 | exact Hl2] | exact Hlg3].
 Qed.
 
 (* ---- 7. Entry::and_modify ---- *)
@@ -340,7 +358,7 @@ Proof.
     split; [reflexivity|]. split; [reflexivity|]. split; [reflexivity|].
     destruct (find_idx_slot _ _ _ Hw Hf) as [_ [[k0 v0] (Hp & _ & Hc)]].
     exists k0, v0. auto.
-  - intros w' (_ & Hn & _). discriminate.
+  - intros w' (_ & _ & Hn & _). discriminate.
 Qed.
 
 End EntrySpec.
